@@ -113,3 +113,33 @@ package fifo
 //@   serves C12 C14
 //@   modifies nothing
 //@   ensures[new-group-is-empty] result != nil && fresh(result) && reqOK(result) && resOK(result) && len(result.reqmods) == 0 && len(result.resmods) == 0 && !result.aggregateErrors && listsApart(result)
+
+// ---------------------------------------------------------------------------------------------
+// C12: building a fifo group from JSON: children in document order; each contributes its request half and its response
+// half exactly when it has one; a child that fails to parse rejects the group; aggregate-errors as configured.
+//@ extern func parse.FromJSON
+//@   modifies fjErr
+//@   ensures (result1 == nil) == (result0 != nil) && fjErr == (old(fjErr) || result1 != nil)
+//@ extern func json.Unmarshal
+//@   modifies groupJSON.*
+//@ func (*Group).SetAggregateErrors
+//@   serves C12
+//@   requires g != nil
+//@   modifies g.aggregateErrors
+//@   ensures g.aggregateErrors == aggerr
+//@ func groupFromJSON
+//@   serves C12
+//@   modifies fjErr, gjWantReq, gjWantRes, gjAddReq, gjAddRes
+//@   noframe
+//@   at entry 0 before set fjErr = false
+//@   at call 0 of RequestModifier after set gjWantReq = gjWantReq + ite(result != nil, 1, 0)
+//@   at call 0 of ResponseModifier after set gjWantRes = gjWantRes + ite(result != nil, 1, 0)
+//@   at call 0 of AddRequestModifier before set gjAddReq = gjAddReq + 1
+//@   at call 0 of AddResponseModifier before set gjAddRes = gjAddRes + 1
+//@   at call 0 of AddRequestModifier before assert[request-half-of-this-child-appended] self == g && arg0 == reqmod && arg0 != nil
+//@   at call 0 of AddResponseModifier before assert[response-half-of-this-child-appended] self == g && arg0 == resmod && arg0 != nil
+//@   at call 0 of NewResult before assert[the-group-is-offered-under-the-message-scope] arg0 == iface(g) && arg1 == msg.Scope && g.aggregateErrors == msg.AggregateErrors
+//@   loop 0 invariant g != nil && reqOK(g) && resOK(g) && listsApart(g) && !fjErr && g.aggregateErrors == msg.AggregateErrors
+//@   loop 0 invariant gjWantReq - old(gjWantReq) == gjAddReq - old(gjAddReq) && gjWantRes - old(gjWantRes) == gjAddRes - old(gjAddRes)
+//@   ensures[every-half-a-child-has-is-added-exactly-once] result1 == nil ==> gjWantReq - old(gjWantReq) == gjAddReq - old(gjAddReq) && gjWantRes - old(gjWantRes) == gjAddRes - old(gjAddRes)
+//@   ensures[a-parse-error-in-any-child-rejects-the-group] fjErr ==> result1 != nil && result0 == nil
